@@ -314,6 +314,15 @@ pub struct Temperature(f64);""")]),
     dict(id='c17-refactor-silent', property='C17', expect=None, edits=[(HJ, 'let y_1 = (date.year() - 1) as f64;', 'let y_1 = f64::from(date.year()) - 1.;'),
                                                                         (HJ, 'year = -(year - 1);', 'year = 1 - year;')]),
 
+    dict(id='c17-refactor-int-division-silent', property='C17', expect=None, edits=[(HJ,
+         """        let y_1 = (date.year() - 1) as f64;
+        (date.ordinal() as f64 + 365. * y_1 + (y_1 / 4.).floor() - (y_1 / 100.).floor()
+            + (y_1 / 400.).floor()) as i32""",
+         """        let y_1 = date.year() - 1;
+        date.ordinal() as i32 + 365 * y_1 + y_1 / 4 - y_1 / 100 + y_1 / 400""")]),
+    dict(id='c17-leap-days-truncated', property='C17', expect=r'R17\.[23]', edits=[(HJ,
+         """            + ((3. + 11. * year) / 30.).floor()""",
+         """            + ((3 + 11 * (year as i32)) / 30) as f64""")]),
     # ---------------------------------------------------------------- C20
     dict(id='c20-gmt-sign', property='C20', expect=r'R20\.1', edits=[(JD, '(date.day() as f64 - f64::from(gmt) / 24.)', '(date.day() as f64 + f64::from(gmt) / 24.)')]),
     dict(id='c20-gmt-scale', property='C20', expect=r'R20\.1', edits=[(JD, '(date.day() as f64 - f64::from(gmt) / 24.)', '(date.day() as f64 - f64::from(gmt) / 12.)')]),
